@@ -371,7 +371,7 @@ from gpmc import interp as _ip
 SUBCHECKS = [
     Sub('spellings', gen_spell, ev_spell_single, chunk=1, floor=100, guard=False),
     Sub('held_context', gen_context, ev_context, chunk=1, floor=20, guard=False),
-    Sub('threads', gen_threads, ev_threads, chunk=1, floor=10, poison=False, fresh=True, timeout=3600),
+    Sub('threads', gen_threads, ev_threads, chunk=1, floor=10, poison=False, fresh=True, timeout=7200),
     Sub('vincdir', gen_dir, ev_dir, chunk=1, floor=500, guard=True, envs=3),
     Sub('vincinv', gen_inv, ev_inv, chunk=4, floor=500, guard=True, envs=3),
     Sub('index', gen_index, ev_index, chunk=1, floor=1, parallel=False, guard=True),
